@@ -102,7 +102,8 @@ func runTLC(dir, module, cfg string, workers int, heapMB int, timeout time.Durat
 		return nil, err
 	}
 	defer os.RemoveAll(meta)
-	args := []string{"-XX:+UseParallelGC", fmt.Sprintf("-Xmx%dm", heapMB), "-Xss512m", "-cp", tlaJar, "tlc2.TLC",
+	// TLC unpacks its standard modules into java.io.tmpdir: keep that inside the scratch directory
+	args := []string{"-XX:+UseParallelGC", fmt.Sprintf("-Xmx%dm", heapMB), "-Xss512m", "-Djava.io.tmpdir=" + meta, "-cp", tlaJar, "tlc2.TLC",
 		"-workers", strconv.Itoa(workers), "-metadir", meta, "-config", cfg}
 	args = append(args, extra...)
 	args = append(args, module)
